@@ -264,7 +264,7 @@ func execute(line string, dstLink bool) (o outcome) {
 			must(os.Chmod(path, modeOf(oct(p[3]))))
 		case p[0] == "i" && p[1] == "f" && len(p) == 6:
 			path := filepath.Join(t, place(string(hx.UnHex(p[2]))))
-			must(os.WriteFile(path, pattern(hx.Atoi(p[4]), hx.Atoi(p[5])), 0o600))
+			must(writeInitial(path, pattern(hx.Atoi(p[4]), hx.Atoi(p[5]))))
 			must(os.Chmod(path, modeOf(oct(p[3]))))
 		case p[0] == "i" && p[1] == "s" && len(p) == 4:
 			must(os.Symlink(subst(string(hx.UnHex(p[3]))), filepath.Join(t, place(string(hx.UnHex(p[2]))))))
@@ -435,6 +435,19 @@ func modeOf(m int) os.FileMode {
 		fm |= os.ModeSticky
 	}
 	return fm
+}
+
+// writeInitial is os.WriteFile for the files that exist BEFORE the extraction, except that the result of close(2) is
+// not looked at: in the closefault area strace fails every close of the watched path, and the watched path may be one
+// that the line also creates up front (the fault is meant for the library's close, not for the set-up's).
+func writeInitial(path string, data []byte) error {
+	f, err := os.OpenFile(path, os.O_WRONLY|os.O_CREATE|os.O_TRUNC, 0o600)
+	if err != nil {
+		return err
+	}
+	_, err = f.Write(data)
+	_ = f.Close()
+	return err
 }
 
 func must(err error) {
